@@ -332,6 +332,15 @@ def hist_pair(v1, v2, n2, only_forest=None):
     fx2 = Fixture(v2)
     out = {"cases": 0, "nontrivial": 0, "evals": 0, "fails": []}
     for f in ([only_forest] if only_forest is not None else _forests_upto(v2, n2)):
+        # the texts v2 is about to read have been looked at by v1's formatter first, as annet.api.guess_hw does with a
+        # saved configuration (every vendor's formatter splits the same text until one fits); what v1 makes of them is
+        # irrelevant here
+        want = vt.materialise(fx2.family, f)
+        for render in (lambda: fx2.fmt.join(env.to_odict(want)), lambda: fx2.dev(want), lambda: fx2.fmt_gen.join(env.to_odict(want))):
+            try:
+                fx1.parse(render(), fx1.fmt.split)
+            except Exception:  # noqa
+                pass
         evals, fails, _ = check_case(fx2, f)
         out["cases"] += 1
         out["evals"] += evals
